@@ -300,3 +300,180 @@ Proof.
       rewrite Hgo. reflexivity.
     + constructor; [|exact HF]. split; [reflexivity|]. exists tf. split; assumption.
 Qed.
+
+(* ================================================================== Enc: one slot *)
+Definition slot_ok (t : ty) (v : value) (cols : list col) : Prop :=
+  exists o, fold_slot t cols ONone = Ok o /\ validate t o = Ok v.
+
+Definition paths_ne (cols : list col) : Prop := Forall (fun pc : col => fst pc <> []) cols.
+
+Lemma fa_shape t o pc o' : fa t o pc = Ok o' -> o' <> ONone.
+Proof.
+  unfold fa. destruct pc as [p c]. cbn [fst snd]. destruct p as [|name rest]; [discriminate|].
+  destruct t; cbn [find_assign]; try discriminate; unfold bind;
+  repeat (first [discriminate | (intros H; injection H as <-; discriminate)
+                | match goal with |- context[match ?x with _ => _ end] => destruct x end]).
+Qed.
+
+Lemma init_slot_fix t o : o <> ONone -> init_slot t o = o.
+Proof. destruct o; try reflexivity. congruence. Qed.
+
+Lemma slot_step_fa t o pc : fst pc <> [] -> slot_step t o pc = fa t (init_slot t o) pc.
+Proof. unfold slot_step, fa. destruct (fst pc); [congruence|reflexivity]. Qed.
+
+Lemma fold_slot_fa t cols : paths_ne cols -> forall o, o <> ONone -> fold_slot t cols o = foldM (fa t) cols o.
+Proof.
+  induction 1 as [|pc r Hp _ IH]; intros o Ho; [reflexivity|].
+  unfold fold_slot. cbn [foldM]. rewrite (slot_step_fa t o pc Hp), (init_slot_fix t o Ho).
+  destruct (fa t o pc) as [o'|e] eqn:E; [|reflexivity]. apply IH. apply (fa_shape t o pc o' E).
+Qed.
+
+Lemma fold_slot_spread t cols o :
+  paths_ne cols -> cols <> [] -> fold_slot t cols o = foldM (fa t) cols (init_slot t o).
+Proof.
+  intros Hp Hne. destruct cols as [|pc r]; [congruence|]. inversion Hp as [|x l Hpc Hr]; subst.
+  unfold fold_slot. cbn [foldM]. rewrite (slot_step_fa t o pc Hpc).
+  destruct (fa t (init_slot t o) pc) as [o'|e] eqn:E; [|reflexivity].
+  apply (fold_slot_fa t r Hr). apply (fa_shape _ _ _ _ E).
+Qed.
+
+Lemma heads_ok_paths fields h2f cols : heads_ok fields h2f cols -> paths_ne cols.
+Proof.
+  unfold heads_ok, paths_ne. apply Forall_impl. intros [p c]. cbn [fst]. destruct p; [tauto|discriminate].
+Qed.
+
+Lemma idx_scan_paths cols : forall m n, idx_scan m cols = Some n -> paths_ne cols.
+Proof.
+  induction cols as [|[p c] r IH]; intros m n H; [constructor|]. cbn [idx_scan] in H.
+  destruct p as [|name rest]; [discriminate|]. constructor; [discriminate|].
+  destruct (head_idx name) as [i|]; [|discriminate].
+  destruct (Nat.ltb i m); [apply (IH _ _ H)|]. destruct (Nat.eqb i m); [apply (IH _ _ H)|discriminate].
+Qed.
+
+Lemma validate_none t : validate t ONone = Err EValidation.
+Proof. destruct t; reflexivity. Qed.
+
+Lemma validate_str_out o v : validate TStr o = Ok v -> out_to_value o = Ok v.
+Proof. destruct o; cbn; try discriminate. tauto. Qed.
+
+Lemma validate_list_ty t l vs :
+  is_list_ty t = true -> length l = length vs ->
+  (forall i, (i < length vs)%nat -> validate (child_ty t) (nth i l ONone) = Ok (nth i vs (VStr []))) ->
+  validate t (OList l) = Ok (VList vs).
+Proof.
+  intros Ht Hlen H. destruct t; try discriminate; cbn [validate child_ty] in *.
+  - rewrite (mapR_nth out_to_value l vs ONone (VStr []) Hlen); [reflexivity|].
+    intros i Hi. apply validate_str_out. apply H, Hi.
+  - rewrite (mapR_nth (validate t) l vs ONone (VStr []) Hlen); [reflexivity|exact H].
+Qed.
+
+Lemma Forall2_impl {X Y} (R1 R2 : X -> Y -> Prop) l1 l2 :
+  (forall a b, R1 a b -> R2 a b) -> Forall2 R1 l1 l2 -> Forall2 R2 l1 l2.
+Proof. intros H. induction 1; constructor; auto. Qed.
+
+Lemma Forall2_with_in {X Y} (R : X -> Y -> Prop) l1 l2 :
+  Forall2 R l1 l2 -> Forall2 (fun a b => In a l1 /\ R a b) l1 l2.
+Proof.
+  induction 1 as [|a b l1 l2 H _ IH]; constructor.
+  - split; [left; reflexivity|exact H].
+  - eapply Forall2_impl; [|exact IH]. cbn. intros x y [Hin HR]. split; [right; exact Hin|exact HR].
+Qed.
+
+Lemma Forall2_in_l {X Y} (R : X -> Y -> Prop) l1 l2 x : Forall2 R l1 l2 -> In x l1 -> exists y, In y l2 /\ R x y.
+Proof.
+  induction 1 as [|a b l1 l2 H _ IH]; intros Hin; [destruct Hin|].
+  destruct Hin as [->|Hin]; [exists b; split; [left; reflexivity|exact H]|].
+  destruct (IH Hin) as [y [Hy HR]]. exists y. split; [right; exact Hy|exact HR].
+Qed.
+
+Lemma field_ty_in_inv fields k ct : field_ty fields k = Some ct -> exists d, In (k, (ct, d)) fields.
+Proof.
+  unfold field_ty. induction fields as [|[n [t d]] r IH]; cbn; [discriminate|].
+  destruct (str_eqb n k) eqn:E.
+  - apply str_eqb_eq in E. subst. intros H. injection H as ->. exists d. left. reflexivity.
+  - intros H. destruct (IH H) as [d' Hd]. exists d'. right. exact Hd.
+Qed.
+
+Lemma validate_fields_F2 d fields fs :
+  Forall2 (fun (f : field) (nv : str * value) =>
+             fst nv = f_name f /\
+             match dget d (f_name f) with
+             | Some o => validate (f_ty f) o = Ok (snd nv)
+             | None => f_default f = Some (snd nv)
+             end) fields fs ->
+  validate_fields d fields = Ok fs.
+Proof.
+  induction 1 as [|[n [tf dflt]] [n' v] fields fs [Hn Hv] _ IH]; [reflexivity|].
+  cbn [fst snd f_name f_ty f_default] in *. subst n'. cbn [validate_fields].
+  destruct (dget d n) as [o|].
+  - rewrite Hv. cbn [bind]. rewrite IH. reflexivity.
+  - rewrite Hv. cbn [bind]. rewrite IH. reflexivity.
+Qed.
+
+Definition EncP (t : ty) (d : option value) (v : value) (cols : list col) : Prop :=
+  (cols = [] -> d = Some v) /\ (cols <> [] -> slot_ok t v cols).
+Definition FieldsP (h2f : remap) (cols : list col) (fields : list field) (fs : list (str * value)) : Prop :=
+  Forall2 (fun (f : field) (nv : str * value) =>
+             fst nv = f_name f /\ EncP (f_ty f) (f_default f) (snd nv) (sub_key h2f (f_name f) cols)) fields fs.
+Definition ElemsP (ct : ty) (cols : list col) (i : nat) (vs : list value) : Prop :=
+  forall j, (j < length vs)%nat ->
+            sub_idx (i + j) cols <> [] /\ slot_ok ct (nth j vs (VStr [])) (sub_idx (i + j) cols).
+
+Theorem enc_sound :
+  (forall t d v cols, Enc t d v cols -> EncP t d v cols)
+  /\ (forall h2f cols fields fs, EncFields h2f cols fields fs -> FieldsP h2f cols fields fs)
+  /\ (forall ct cols i vs, EncElems ct cols i vs -> ElemsP ct cols i vs).
+Proof.
+  apply Enc_mutind.
+  - (* default *) intros t v. split; [reflexivity|congruence].
+  - (* one cell *) intros t d v c Hnv. split; [discriminate|]. intros _.
+    destruct (proj1 encnv_sound t v _ Hnv) as [o [Ha Hv]]. exists o. split; [|exact Hv].
+    unfold fold_slot, slot_step. cbn [foldM fst snd]. unfold leaf_assign. rewrite Ha. reflexivity.
+  - (* list spread *)
+    intros t d vs cols Ht Hne Hscan _ HE. split; [congruence|]. intros _.
+    pose proof (idx_scan_paths cols _ _ Hscan) as Hp.
+    assert (Hs : forall i, (i < length vs)%nat ->
+              exists o, fold_slot (child_ty t) (sub_idx i cols) (nth i (@nil out) ONone) = Ok o).
+    { intros i Hi. destruct (HE i Hi) as [_ [o [Hf _]]]. exists o.
+      replace (nth i (@nil out) ONone) with ONone by (destruct i; reflexivity). exact Hf. }
+    destruct (fold_list t cols Ht [] (length vs) Hscan Hs) as [l' [Hf [Hlen Hsl]]].
+    exists (OList l'). split.
+    + rewrite (fold_slot_spread t cols ONone Hp Hne).
+      replace (init_slot t ONone) with (OList []) by (destruct t; try discriminate; reflexivity).
+      exact Hf.
+    + apply (validate_list_ty t l' vs Ht Hlen). intros i Hi.
+      destruct (HE i Hi) as [_ [o [Hfo Hvo]]]. specialize (Hsl i Hi).
+      replace (nth i (@nil out) ONone) with ONone in Hsl by (destruct i; reflexivity).
+      cbn [Nat.add] in Hfo. rewrite Hfo in Hsl. injection Hsl as <-. exact Hvo.
+  - (* model spread *)
+    intros fields h2f f2h d fs cols Hne Hnd Hh _ HF. split; [congruence|]. intros _.
+    pose proof (heads_ok_paths _ _ _ Hh) as Hp.
+    assert (Hs : forall k ct, field_ty fields k = Some ct ->
+              exists o, fold_slot ct (sub_key h2f k cols) (slot [] k) = Ok o).
+    { intros k ct Hk. destruct (field_ty_in_inv fields k ct Hk) as [dk Hin].
+      destruct (Forall2_in_l _ _ _ _ HF Hin) as [[n v] [_ [_ [_ HP]]]].
+      cbn [f_name f_ty f_default fst snd] in HP.
+      destruct (sub_key h2f k cols) eqn:Esub; [exists ONone; reflexivity|].
+      destruct HP as [o [Ho _]]; [discriminate|]. exists o. exact Ho. }
+    destruct (fold_model fields h2f f2h cols [] Hh Hs) as [d' [Hf [Hsl [Hemp Hpre]]]].
+    exists (ODict d'). split.
+    + rewrite (fold_slot_spread _ cols ONone Hp Hne). exact Hf.
+    + rewrite validate_model. rewrite (validate_fields_F2 d' fields fs); [reflexivity|].
+      apply Forall2_with_in in HF. eapply Forall2_impl; [|exact HF]. cbn beta.
+      intros [n [tf dflt]] [n' v] [Hin [Hn [HPe HPn]]]. cbn [f_name f_ty f_default fst snd] in *.
+      split; [exact Hn|].
+      pose proof (field_ty_in fields n tf dflt Hnd Hin) as Hty.
+      destruct (sub_key h2f n cols) eqn:Esub.
+      * rewrite (Hemp n Esub). cbn. apply HPe. reflexivity.
+      * assert (Hne' : sub_key h2f n cols <> []) by (rewrite Esub; discriminate).
+        rewrite (Hpre n Hne'). rewrite <- Esub in HPn. destruct (HPn Hne') as [o [Hfo Hvo]].
+        specialize (Hsl n tf Hty). unfold slot at 1 in Hsl. cbn [dget oget] in Hsl.
+        rewrite Hfo in Hsl. injection Hsl as <-. exact Hvo.
+  - (* fields nil *) intros h2f cols. constructor.
+  - (* fields cons *) intros h2f cols n t d v fields fs _ HP _ HF. constructor; [|exact HF].
+    split; [reflexivity|exact HP].
+  - (* elems nil *) intros ct cols i j Hj. cbn in Hj. lia.
+  - (* elems cons *) intros ct cols i v vs Hne _ HP _ HE j Hj. destruct j as [|j].
+    + rewrite Nat.add_0_r. split; [exact Hne|]. apply HP. exact Hne.
+    + replace (i + S j)%nat with (S i + j)%nat by lia. cbn [nth]. apply HE. cbn in Hj. lia.
+Qed.
